@@ -220,6 +220,39 @@ def oracle_tokens(seq) -> Info:
     return Info(nontrivial=any_frames or mid, classes=(f"len:{len(seq)}", "frames" if any_frames else "noframes"), sample=[TOKENS[t][0] for t in seq])
 
 
+# ---- an escape octet followed by EVERY octet value, both octets in one chunk or split -------------------------------------------------
+
+
+def escape_pair_case(i, tier):
+    return (i % 256, i // 256)
+
+
+def escape_pair_oracle(case) -> Info:
+    x, shape = case
+    y = x ^ 0x20
+    if shape == 0:  # a frame that is valid once un-stuffed: the payload octet y travels as 7D x (escaped although it may not need to be)
+        fr = G.build_frame(0xA, 0, b"\x03", b"\x21", 0x13, bytes([0xE6, 0xE7, 0x00, y, 0x0F, 0x01]))
+        k = 7 + 3  # position of y inside the frame (2 format + 1 + 1 addresses + control + 2 HCS, then 3 payload octets)
+        assert fr[k] == y
+        wire = bytes([FLAG]) + fr[:k] + bytes([ESC, x]) + fr[k + 1 :] + bytes([FLAG])
+    elif shape == 1:  # two pairs in a row, then a second (plain) frame sharing the flag
+        fr = G.build_frame(0xA, 0, b"\x03", b"\x21", 0x13, bytes([0x01, y, y, 0x02]))
+        k = 7 + 1
+        assert fr[k] == y and fr[k + 1] == y
+        wire = bytes([FLAG]) + fr[:k] + bytes([ESC, x, ESC, x]) + fr[k + 2 :] + bytes([FLAG]) + G.build_frame(0xA, 0, b"\x03", b"\x21", 0x13, b"\x01\x02") + bytes([FLAG])
+    else:  # the pair inside the header (destination address position) and right before the closing flag
+        fr = G.build_frame(0xA, 0, b"\x03", b"\x21", 0x13, b"\x01\x02")
+        wire = bytes([FLAG]) + fr[:2] + bytes([ESC, x]) + fr[3:] + bytes([ESC, x, FLAG]) + fr + bytes([FLAG])
+    frames_any = False
+    for stuffing, abort in G.CONFIGS:
+        base, _rd = run(stuffing, abort, [wire])
+        frames_any |= bool(base)
+        compare(stuffing, abort, wire, base, [wire[i : i + 1] for i in range(len(wire))], "bytewise")
+        for c in range(1, len(wire)):
+            compare(stuffing, abort, wire, base, [wire[:c], wire[c:]], f"single cut at {c}")
+    return Info(nontrivial=frames_any, classes=(f"shape:{shape}",), sample={"escaped_octet": x, "shape": shape})
+
+
 def build() -> Check:
     return Check(
         pid="C06",
@@ -234,6 +267,7 @@ def build() -> Check:
             "{flag, escape, valid frame with 7D/5E/7E in its information field, header-only frame, frame truncated after the HCS, frame "
             "cut mid-header, odd octet, even octet, 5E, stuffed valid frame} x 4 configurations x {bytewise, every single cut, token "
             "boundaries, empty chunks}; non-trivial = some configuration yields a frame or ends mid-frame. Distinct = case hash."
+            ' escape-pairs: an escape octet followed by each of the 256 octet values (in a payload that is valid once un-stuffed, twice in a row, in the header, before the closing flag), all four configurations, whole stream vs bytewise vs every single cut.'
         ),
         assumptions=["A list (and its frames) returned by read() is snapshotted at return time and compared again after all later calls: a result the caller keeps must not change.", "Frames are compared as (as_bytes, is_valid, payload) tuples; the single-call result is the reference (metamorphic relation, no absolute oracle)."],
         extra=lambda: {"exhaustive_subdomains": ["tokens: every token sequence up to the tier's length, every single cut"]},
@@ -242,6 +276,7 @@ def build() -> Check:
             HypClause("dense", dense_case_st, oracle_stream, quick=12000, thorough=250000),
             HypClause("special-frames", special_case_st, oracle_stream, quick=2500, thorough=50000, doc="same-length frames in a row incl. last octet 7D/7E; frames without room for control/HCS; 7D 7D pairs near 2047 with a cut between them"),
             HypClause("overlong", overlong_case_st, oracle_stream, quick=1500, thorough=30000, doc="frames around / beyond the 2047-octet maximum followed by good frames"),
+            EnumClause("escape-pairs", size=lambda tier: 256 * 3, case_at=escape_pair_case, oracle=escape_pair_oracle, doc="7D followed by each of the 256 octet values: inside a payload (valid once un-stuffed), twice in a row, inside the header and before the closing flag; all four configurations x whole / bytewise / every single cut"),
             EnumClause("tokens", size=lambda tier: _seq_count(4 if tier == "quick" else 6), case_at=seq_at, oracle=oracle_tokens, doc="exhaustive token sequences x all single cuts"),
         ],
     )
